@@ -55,6 +55,7 @@ type lockRec struct {
 	yields    int
 	callStep  int
 	retStep   int
+	queueStep int // last step at which the scheduler released the task inside this request: when it queued
 }
 
 type lockerSim struct {
@@ -228,6 +229,9 @@ func (l *lockerSim) root() {
 			break
 		}
 		p := l.sched.pick(ps)
+		if r := l.cur[p]; r != nil && r.invoked && !r.returned {
+			r.queueStep = l.sched.step
+		}
 		l.sched.Logf("step %d: run %s @%s", l.sched.step, p.Name, p.point)
 		l.sched.last = p
 		p.counted = false
@@ -268,6 +272,7 @@ func (l *lockerSim) doRequest(ctx context.Context, t *Task, locker *command.Defa
 	l.cur[t] = rec
 	rec.invoked = true
 	rec.callStep = l.sched.step
+	rec.queueStep = l.sched.step
 	l.sched.Logf("  %s Lock R=%v W=%v", rec.name, rec.read, rec.write)
 	defer func() {
 		if e := recover(); e != nil && !t.Gen.dead.Load() {
@@ -436,7 +441,8 @@ func (l *lockerSim) checkNoNeedlessWait(ps []*Task, tasks []*Task) {
 		// (first come first served, so that writers are not starved): that is not a lost grant
 		for _, tk2 := range tasks {
 			q := l.cur[tk2]
-			if q == nil || q == r || !q.invoked || q.returned || q.cancelled || q.callStep > r.callStep || (q.callStep == r.callStep && q.task > r.task) {
+			// "earlier" = queued earlier: the order in which the waiters reached the lock manager
+			if q == nil || q == r || !q.invoked || q.returned || q.cancelled || q.queueStep >= r.queueStep {
 				continue
 			}
 			if _, isParked := parkedAt[tk2]; isParked {
